@@ -57,6 +57,9 @@ var base = time.Unix(1_750_000_000, 700_000_000)
 
 type namePool struct {
 	Host, Collider, Parent, Child, ParentCollider, Private6, Lan5, Other string
+	// OwnParentCollider is a name under Parent whose hash shares its first two
+	// bytes with the hash of Parent itself.
+	OwnParentCollider string
 }
 
 var (
@@ -86,6 +89,13 @@ func findPool() namePool {
 		seen[pf] = j
 	}
 	p.Child = "www." + p.Host
+	for k := 0; ; k++ {
+		n := fmt.Sprintf("s%d.example.com", k)
+		if prefixHex(n) == avoid {
+			p.OwnParentCollider = n
+			break
+		}
+	}
 	for k := 0; ; k++ {
 		n := fmt.Sprintf("p%d.example.net", k)
 		if prefixHex(n) == avoid && prefixHex("example.net") != avoid {
@@ -187,6 +197,9 @@ func (sc *scenario) ops(quick bool) (ops []op) {
 	} else if strings.HasPrefix(sc.DB.Name, "parentcollider") {
 		names = []string{pool.Host, pool.Child, pool.Parent, pool.ParentCollider, pool.Private6, pool.Lan5}
 	}
+	if len(sc.Pre) == 0 && !sc.Switch && (sc.DB.Name == "parent" || sc.DB.Name == "empty" || !quick) {
+		names = append(names, pool.OwnParentCollider)
+	}
 	for _, n := range names {
 		ops = append(ops, op{Sc: sc.Label, Kind: "chk", Name: n})
 	}
@@ -247,7 +260,7 @@ func setup() {
 	pool = findPool()
 	roleOf = map[string]string{
 		pool.Host: "host", pool.Collider: "collider", pool.Parent: "parent", pool.Child: "child",
-		pool.ParentCollider: "parentcollider", pool.Private6: "private6", pool.Lan5: "lan5", pool.Other: "other",
+		pool.ParentCollider: "parentcollider", pool.OwnParentCollider: "ownparentcollider", pool.Private6: "private6", pool.Lan5: "lan5", pool.Other: "other",
 	}
 	allDBs = buildDBs(pool)
 	for _, d := range allDBs {
@@ -588,7 +601,10 @@ func evalStateless(c *lib.Ctx, cs *slCase) (vkey, desc string, blocked bool, ngr
 		f := getFilter(c)
 		var other bool
 		blocked, err, pan = safeCheck(func() (bool, error) {
-			res, e := f.CheckHost(cs.Host, dns.TypeA, fltSetting)
+			// The verdict does not depend on the question type; the types
+			// rotate with the length of the name.
+			qt := []uint16{dns.TypeA, dns.TypeAAAA, dns.TypeHTTPS, dns.TypeTXT, dns.TypeMX}[len(cs.Host)%5]
+			res, e := f.CheckHost(cs.Host, qt, fltSetting)
 			other = res.Reason != want && res.Reason != filtering.NotFilteredNotFound
 			return res.Reason == want && res.IsFiltered, e
 		})
@@ -739,7 +755,7 @@ func allSuffixNames(h string) (out []string) {
 
 func runStateless(c *lib.Ctx) {
 	hosts := hostGrammar(c.Quick())
-	c.Note("stateless_hosts", fmt.Sprintf("%d hosts: 0..7 labels of {a,www,secretlabel%s} before each of %d suffixes (ICANN, ICANN exception rule, 4-label ICANN, private, unmanaged TLD), 1..8 labels in total, plus 11 special names; each lower-case via Checker.Check and DNSFilter.CheckHost(safe browsing), upper-case via CheckHost(safe browsing), mixed-case via CheckHost(parental)",
+	c.Note("stateless_hosts", fmt.Sprintf("%d hosts: 0..7 labels of {a,www,secretlabel%s} before each of %d suffixes (ICANN, ICANN exception rule, 4-label ICANN, private, unmanaged TLD), 1..8 labels in total, plus 11 special names; each lower-case via Checker.Check and DNSFilter.CheckHost(safe browsing), upper-case via CheckHost(safe browsing), mixed-case via CheckHost(parental); CheckHost with question types A/AAAA/HTTPS/TXT/MX in rotation",
 		len(hosts), map[bool]string{true: "", false: ",b9,mail-x"}[c.Quick()], len(suffixes)))
 	for i, h := range hosts {
 		if !c.Mine(i) {
